@@ -923,8 +923,11 @@ __ywd_diff(dt_ywd_t d1, dt_ywd_t d2)
 
 	/* first compute the difference in years */
 	tgty = (d2.y - d1.y);
-	/* ... and weeks */
-	tgtw = (d2.c - d1.c);
+	/* ... and weeks, a week 53 is the last week in years without one,
+	 * just like adding years does it */
+	with (signed int nw = __get_isowk(d1.y + tgty)) {
+		tgtw = d2.c - (d1.c <= nw ? (signed int)d1.c : nw);
+	}
 	/* ... oh, and days, too */
 	tgtd = (d2.w ?: 7) - (d1.w ?: 7);
 
@@ -934,8 +937,14 @@ __ywd_diff(dt_ywd_t d1, dt_ywd_t d2)
 		tgtd += GREG_DAYS_P_WEEK;
 	}
 	if (tgtw < 0) {
-		tgty--;
-		tgtw += __get_isowk(d1.y + tgty);
+		/* a year less then, count from D1's week there to the
+		 * end of that year and on to D2's week */
+		signed int nw = __get_isowk(d1.y + --tgty);
+
+		tgtw = nw - (d1.c <= nw ? (signed int)d1.c : nw) + d2.c;
+		if ((d2.w ?: 7) < (d1.w ?: 7)) {
+			tgtw--;
+		}
 	}
 
 	/* fill in the results */
